@@ -404,3 +404,5 @@ def run(ctx):
     r10_4(ctx)
     r10_5(ctx)
     r10_6(ctx)
+    from .c12 import r12_5
+    r12_5(ctx, rid="R10.7")  # the capture regex stays the capture pattern when it is compiled
